@@ -229,6 +229,43 @@ func replayOnce(b Behaviour, cfg Cfg, seed int64, dir string, res *vh.Result, co
 			vh.Fatalf("unknown step %q", st.Op)
 		}
 	}
+	// final comparison: every index, once it has applied the whole log, holds what the reference holds; again after
+	// Close+Open
+	if b.Final != nil {
+		for x := range b.Indexes {
+			if !w.running[x] {
+				if err := w.start(x + 1); err != nil {
+					return append(devs, deviation{Step: len(b.Steps), X: x + 1, Kind: indexKind(b.Indexes[x]), Op: "final", Class: "error", Err: "InitIndexing: " + err.Error()}), ""
+				}
+			}
+		}
+		for _, op := range []string{"final", "final-after-reopen"} {
+			if op == "final-after-reopen" {
+				if err := w.reopen(); err != nil {
+					return append(devs, deviation{Step: len(b.Steps), Kind: "store", Op: op, Class: "error", Err: "Close+Open: " + err.Error()}), ""
+				}
+			}
+			for x := range b.Indexes {
+				d := deviation{Step: len(b.Steps), X: x + 1, Kind: indexKind(b.Indexes[x]), Op: op, Query: dumpQuery, N: w.n}
+				snap, err := w.settledSnapshot(x+1, w.n)
+				if err != nil {
+					d.Class, d.Err = "indexing-does-not-catch-up", err.Error()
+					return append(devs, d), ""
+				}
+				exp := w.expected(b.Final[x])
+				got, _ := w.exec(x+1, w.n, dumpQuery, snap)
+				snap.Close()
+				if count {
+					res.Count("read:"+op, 1)
+					res.Evaluations++
+				}
+				if !eqRes(exp, got) {
+					d.Class, d.Exp, d.Got = classOf(exp, got, b.Final[x]), exp, got
+					devs = append(devs, d)
+				}
+			}
+		}
+	}
 	for k, v := range w.counts {
 		if count {
 			res.Count(k, v)
@@ -281,6 +318,12 @@ func signature(d deviation, bulkOnly bool) string {
 	if d.Op == "history" && d.Query.Via == "snap" && d.Class == "wrong-revision" {
 		return "store.Snapshot.History:revision-numbers-ignore-order-and-offset"
 	}
+	if d.Op == "final" && d.Class != "error" {
+		return fmt.Sprintf("%s-index:final-state:differs-from-committed-log", d.Kind)
+	}
+	if d.Op == "final-after-reopen" && d.Class != "error" {
+		return fmt.Sprintf("%s-index:final-state:differs-from-committed-log:after-reopen", d.Kind)
+	}
 	op := d.Op
 	if op == "dump" {
 		op = "content"
@@ -320,6 +363,9 @@ func runRP(in string, seed int64, dir string, classes int, res *vh.Result) {
 			}
 			report := func(d deviation, c Cfg, bulkOnly bool) {
 				sig := signature(d, bulkOnly)
+				if d.Step >= len(b.Steps) {
+					d.Step = len(b.Steps) - 1 // final comparison: after all steps
+				}
 				text := fmt.Sprintf("layout %s, %s: after steps %s the %s index %d answers %s %s with %s; the committed log defines %s",
 					bf.Layout, c, stepsText(b.Steps[:d.Step+1]), d.Kind, d.X, d.Op, queryText(d.Query), resText(d.Got), resText(d.Exp))
 				if d.Err != "" {
